@@ -187,9 +187,9 @@ func TestC02(t *testing.T) {
 	maxPoints := 40
 	if tier() == "thorough" {
 		// bounded so that the tier finishes in about a quarter of an hour on an idle 16-core machine
-		// (every point is a real child process on a real disk): chains with up to 1,600 points are
+		// (every point is a real child process on a real disk): chains with up to 1,000 points are
 		// enumerated exhaustively, longer ones keep every call around COMMIT and sample the rest
-		maxPoints = 1600
+		maxPoints = 1000
 	}
 	rapid.Check(t, func(rt *rapid.T) {
 		sc := genFaultChain(rt)
